@@ -167,6 +167,12 @@ func (group *Group) AddRtmpPullSession(session *rtmp.PullSession) error {
 	group.mutex.Lock()
 	defer group.mutex.Unlock()
 
+	if !group.pullProxy.staticRelayPullEnable && !group.pullProxy.apiEnable {
+		// stop_relay_pull (or a kick) disabled the pull while this attempt was still connecting
+		Log.Warnf("[%s] relay pull disabled while connecting. discard=%s", group.UniqueKey, session.UniqueKey())
+		return base.ErrDupInStream
+	}
+
 	if group.hasInSession() {
 		Log.Errorf("[%s] in stream already exist. wanna add=%s", group.UniqueKey, session.UniqueKey())
 		return base.ErrDupInStream
@@ -202,6 +208,12 @@ func (group *Group) AddRtmpPullSession(session *rtmp.PullSession) error {
 func (group *Group) AddRtspPullSession(session *rtsp.PullSession) error {
 	group.mutex.Lock()
 	defer group.mutex.Unlock()
+
+	if !group.pullProxy.staticRelayPullEnable && !group.pullProxy.apiEnable {
+		// stop_relay_pull (or a kick) disabled the pull while this attempt was still connecting
+		Log.Warnf("[%s] relay pull disabled while connecting. discard=%s", group.UniqueKey, session.UniqueKey())
+		return base.ErrDupInStream
+	}
 
 	if group.hasInSession() {
 		Log.Errorf("[%s] in stream already exist. wanna add=%s", group.UniqueKey, session.UniqueKey())
